@@ -302,7 +302,9 @@ func c12SockRun(p c12SockPlan) (*common.Fail, string) {
 					default:
 					}
 				case *knxnet.TunnelReq:
-					pc.WriteToUDP(knxnet.AllocAndPack(&knxnet.TunnelRes{Channel: v.Channel, SeqNumber: v.SeqNumber, Status: knxnet.NoError}), from)
+					// the acknowledgement leaves when the books are done (deferred to the end of this case): the moment the
+					// client has it, its Send returns and the test may look at what the gateway has recorded
+					ack := knxnet.AllocAndPack(&knxnet.TunnelRes{Channel: v.Channel, SeqNumber: v.SeqNumber, Status: knxnet.NoError})
 					if v.Channel != 9 {
 						mu.Lock()
 						if seen.garbled == "" {
@@ -311,6 +313,7 @@ func c12SockRun(p c12SockPlan) (*common.Fail, string) {
 						mu.Unlock()
 					}
 					if int(v.SeqNumber) == lastSeq {
+						pc.WriteToUDP(ack, from)
 						// a repetition: the same request again, octet for octet
 						if !bytes.Equal(buf[:n], lastReq) {
 							mu.Lock()
@@ -337,6 +340,7 @@ func c12SockRun(p c12SockPlan) (*common.Fail, string) {
 							mu.Unlock()
 						}
 					}
+					pc.WriteToUDP(ack, from)
 				}
 			}
 		}()
